@@ -122,6 +122,24 @@ def evaluate(case):
                 fails.append(_f("solution-count", case, z_to, rho, "%d solutions (a gradient-index tracer reports none or two)" % len(sols), **tags))
             for si, path in enumerate(sols):
                 rays_in.append(({"z_to": z_to, "rho": rho, "si": si, "tags": tags}, path))
+            # the same two points written with integer coordinates (as a user types them) are the same two points
+            if all(float(c).is_integer() for c in p0 + p1) and not (is_basic and case["dz"] < 1.0):
+                n += 1
+                try:
+                    tr_i = _tracer(case, ice, [int(c) for c in p0], tuple(int(c) for c in p1))
+                    sols_i = tr_i.solutions
+                    same = len(sols_i) == len(sols) and bool(tr_i.exists) == bool(exists)
+                    for a_, b_ in zip(sols, sols_i):
+                        for name in ("tof", "path_length", "emitted_direction", "received_direction"):
+                            if not np.array_equal(np.asarray(getattr(a_, name), float), np.asarray(getattr(b_, name), float), equal_nan=True):
+                                same = False
+                    if not same:
+                        fails.append(_f("integer-coordinates", case, z_to, rho, "solutions for integer-typed endpoints differ from those for the "
+                                        "same endpoints given as floats (%d vs %d solutions)" % (len(sols_i), len(sols)), **tags))
+                except Exception as e:
+                    if src.exception_origin(e) != "library":
+                        raise
+                    fails.append(_f("integer-coordinates", case, z_to, rho, "integer-typed endpoints: " + src.short_tb(e), exc=type(e).__name__, **tags))
     if not rays_in:
         return {"n": n, "nontrivial": [], "fails": fails, "sample": {"case": case}}
     # ---- reported quantities --------------------------------------------------------------------
